@@ -124,6 +124,10 @@ func init() {
 				time.Sleep(30 * time.Millisecond)
 			case 'P':
 				time.Sleep(130 * time.Millisecond)
+			case 'L':
+				// a long pause of the writer (across the follow's 3 s truncation check and anything else that
+				// is driven by time rather than by data): a partial line stays held
+				time.Sleep(time.Duration(atoi(st[1:])) * time.Millisecond)
 			}
 		}
 		fd.Close()
